@@ -129,6 +129,14 @@ def build_cases(seed, quick=True):
                         {'a': 'Reopen', 'same': False},
                         {'a': 'ModifyInPlace', 'p': [extra_name], 'blob': 't'}],
             ]
+            # a second name of the first file that sorts last: its record is in another sector of the
+            # directory than the record the in-place call is given
+            zlink = 'zL'
+            names[zlink] = {'iso': 'ZZZZLINK.;1', 'rr': 'zzzzlink', 'jol': 'zzzzlink', 'udf': 'zzzzlink'}
+            variants.append(adds + [{'a': 'AddHardLink', 'ons': 'iso', 'old': [order[0]], 'nns': 'iso', 'new': [zlink]},
+                                    {'a': 'Reopen', 'same': False},
+                                    {'a': 'ModifyInPlace', 'p': [order[0]], 'blob': 't'},
+                                    {'a': 'ModifyInPlace', 'p': [zlink], 'blob': 's'}])
             # the same directory one level down, with a sub-directory in it, growing and shrinking
             dname = 'dD'
             sname = 'dS'
